@@ -237,8 +237,10 @@ func VH_Conservation() {
 		if vParam("named", 1) != 0 {
 			t = []auparse.AuditMessageType{auparse.AUDIT_USER_LOGIN, auparse.AUDIT_CONFIG_CHANGE, auparse.AUDIT_USER_CMD, auparse.AUDIT_AVC, 1999, auparse.AUDIT_SYSCALL}[vChoose("type", 6)]
 		}
+		vAssume(t != auparse.AUDIT_EOE) // an EOE record on its own is not an event (it is rejected, rightly)
 		d := map[string]string{}
-		pool := []string{"result", "ses", "auid", "uid", "gid", "subj_user", "pid", "ppid", "comm", "exe", "cwd", "acct", "addr", "op", "syscall", "x1"}
+		pool := []string{"result", "addr", "acct", "exe", "syscall", "x1", "ses", "auid", "uid", "gid", "subj_user", "pid", "ppid", "comm", "cwd", "op"}
+		pool = pool[:vParam("npool", len(pool))]
 		for _, k := range pool {
 			if vChoose("has-"+k, 2) == 1 {
 				d[k] = val()
